@@ -87,7 +87,7 @@ impl Scenario for BusHistory {
             rule: "one case = one cartridge built by read_header + Core::from_rom_file (every supported type; cartridge RAM of every size incl. none) + a seeded history of byte/word writes and reads, fetch-view requests, elapsed-time gaps, OAM DMA starts, bank-register writes and joypad events at boundary-biased addresses (every region edge +-2, every I/O register, uniform); after every write a probe sweep reads the written address, its aliases under single-bit strides and the echo/HRAM<->I/O counterparts, all region edges and a drawn sample, and every 64 operations (and at the end) all 65536 addresses are compared with RefBus; a write to a storage region must not change what is read anywhere else. distinct_nontrivial = distinct (write region, probe region, access kind) triples compared",
             components_real: &["mem::memory_read_byte/_write_byte/_read_word/_write_word, get_executable_memory_slice", "devices::io::IO set_byte/get_byte/run_clock_cycles and the timer/LCD/joypad behind the readable registers", "cart bank state, MemoryAreas::with_rom_file, MemoryAreas::run_clock_cycles incl. OAM DMA as second bus master"],
             components_stub: &["CPU absent: the simulator is the bus master"],
-            assumptions: &["cartridge RAM kept enabled (0x0A) and MBC3 RTC selection avoided: gating is not specified", "reads of cartridge-RAM addresses the cartridge does not have, of 0xFF01/0xFF02/0xFF46 and of P1 bits 6-7 / STAT bit 7 / IF bits 5-7 are not value-checked (only: a storage write elsewhere must not change them)", "LCDC bit 7 kept set", "unmapped addresses: one constant per address, discovered on first read", "time gaps are multiples of 4 clocks"],
+            assumptions: &["cartridge RAM kept enabled (0x0A) and MBC3 RTC selection avoided: gating is not specified", "reads of cartridge-RAM addresses the cartridge does not have, of 0xFF01/0xFF02/0xFF46 and of P1 bits 6-7 / STAT bit 7 / IF bits 5-7 are not value-checked (only: a storage write elsewhere must not change them)", "LCDC bit 7 kept set in three cases of four; in the fourth it may be cleared, after which LY, STAT bits 0-2 and IF bits 0-1 are not asserted (display-off behaviour is not specified)", "unmapped addresses: one constant per address, discovered on first read", "time gaps are multiples of 4 clocks"],
             fault_kinds: &["step (device time between accesses)", "dma (second bus master in flight)", "bank (register writes between write and read-back)", "joy (press/release)"],
         }
     }
@@ -162,6 +162,8 @@ impl Scenario for BusHistory {
         let m = reps[0].as_mut();
         let mut model = model_of(case, m);
         let mbc3 = case.get("cart_type") >= 0x11;
+        // one case in four may switch the display off (LCDC read-back with bit 7 clear); LY/STAT status are then not asserted
+        let lcd_off_allowed = case.index % 4 == 2;
         let mut out = Vec::new();
         let mut clocks = 0u64;
         let fail = |sig: String, detail: String| Violation::new("C10", sig, detail);
@@ -191,7 +193,7 @@ impl Scenario for BusHistory {
                         if mbc3 && (0x4000..0x6000).contains(&b.0) {
                             b.1 &= 3;
                         }
-                        if b.0 == 0xff40 {
+                        if b.0 == 0xff40 && !lcd_off_allowed {
                             b.1 |= 0x80;
                         }
                     }
